@@ -638,4 +638,54 @@ def do_infinite(ctx, rng, i):
             continue
         if not (abs(got - e_ref) <= 1e-8 * max(1, abs(e_ref))):
             ctx.violation('infinite.%s:wrong' % fn, 'got %r expected density %r' % (got, e_ref), case)
+    # overlap / distance / is_equal of infinite MPOs on a window: the documented definition is the Frobenius inner product of the
+    # windows of `num_sites` sites with IdL projected on the left and IdR on the right
+    import checks.C10 as C10
+    dloc = float(np.prod([float(s_.dim) for s_ in sites]))
+    terms2 = [t for t in terms]
+    str2 = list(strengths)
+    mod_kind = int(rng.integers(0, 3))
+    if mod_kind == 0:
+        str2[0] = str2[0] + 0.5                      # another operator, same range
+    elif mod_kind == 1:
+        far = [(C8.opnames(sites[0], rng, 'bosonic'), 0), (C8.opnames(sites[(2 * L + 1) % L], rng, 'bosonic'), 2 * L + 1)]
+        if not np.any(chinfo.make_valid(sum(sites[k % L].get_op(n).qtotal for n, k in far))):
+            terms2 = terms2 + [far]                  # longer range than H
+            str2 = str2 + [0.75]
+    H2 = MPOGraph.from_term_list(TermList(terms2, str2), sites, bc='infinite').build_MPO()
+    for n_w in sorted(set(int(x) for x in rng.integers(L, 3 * L + 3, size=2))):
+        if dloc ** (n_w / L) > 1500:
+            continue
+        A, B = C10.window_matrix(H, n_w), C10.window_matrix(H2, n_w)
+        ctx.count('infinite.window_overlaps')
+        try:
+            ov = H.overlap(H2, understood_infinite=True, num_sites=n_w)
+            ds = H.distance(H2, understood_infinite=True, num_sites=n_w)
+            ds2 = H2.distance(H, understood_infinite=True, num_sites=n_w)
+        except Exception as e:
+            tb = traceback.format_exc()
+            ctx.violation('infinite.overlap/distance:raises-%s' % type(e).__name__, tb[-500:], dict(case, num_sites=n_w))
+            break
+        ov_ref = np.trace(A.conj().T @ B)
+        ds_ref = np.linalg.norm(A - B)
+        sc = max(1.0, np.linalg.norm(A) * np.linalg.norm(B))
+        if not (abs(ov - ov_ref) <= 1e-9 * sc):
+            ctx.violation('infinite.overlap:wrong', 'num_sites=%d: %r, windows give %r' % (n_w, ov, ov_ref), dict(case, num_sites=n_w))
+        if not (abs(ds - ds_ref) <= 1e-6 * max(1.0, np.sqrt(sc))) or not (abs(ds2 - ds_ref) <= 1e-6 * max(1.0, np.sqrt(sc))):
+            ctx.violation('infinite.distance:wrong', 'num_sites=%d: %r / %r, windows give %r' % (n_w, ds, ds2, ds_ref), dict(case, num_sites=n_w))
+    # default window (num_sites=None): L + 2 * max_range of whichever MPO has the larger value, L standing in for an unknown range
+    from tenpy.networks.mpo import MPO
+    H3 = MPO(H2.sites, [H2.get_W(k_).copy() for k_ in range(L)], bc='infinite', IdL=H2.IdL, IdR=H2.IdR, max_range=None)
+    mr = H.max_range if H.max_range is not None and H.max_range != np.inf else L
+    n_def = max(L + 2 * mr, L + 2 * L)
+    if dloc ** (n_def / L) <= 1500:
+        ctx.count('infinite.default_window_overlaps')
+        try:
+            ov = H.overlap(H3, understood_infinite=True)
+            A, B = C10.window_matrix(H, n_def), C10.window_matrix(H3, n_def)
+            if not (abs(ov - np.trace(A.conj().T @ B)) <= 1e-9 * max(1.0, np.linalg.norm(A) * np.linalg.norm(B))):
+                ctx.violation('infinite.overlap:default-window:wrong', 'got %r, window of %d sites gives %r' % (ov, n_def, np.trace(A.conj().T @ B)), case)
+        except Exception as e:
+            tb = traceback.format_exc()
+            ctx.violation('infinite.overlap:default-window:raises-%s' % type(e).__name__, tb[-500:], case)
     ctx.sig(('infinite', kind, L, repr(terms)), nontrivial=True)
